@@ -28,7 +28,8 @@ def units(tier):
     for p in progs:
         n = len(_lines(p))
         f08 = G.is_f08(p)
-        spots = [("full", i) for i in range(n + 1)] + [("trail", i) for i in range(n)] + [("cont", i) for i in range(1, n - 1)]
+        spots = ([("full", i) for i in range(n + 1)] + [("trail", i) for i in range(n)] + [("cont", i) for i in range(1, n - 1)]
+                 + [("semi", i) for i in range(1, n - 2)])
         for si, s in enumerate(spots):
             rot += 1
             if q and rot % 2 and p in PG.base_programs()[40:]:
@@ -69,12 +70,17 @@ def com_prog(ctx):
     # build the text; expected comments in source order
     out = []
     expect = []
+    skip_next = False
+    joined = False
     for i in range(len(lines) + 1):
         for kind, at, text in coms:
             if kind == "full" and at == i:
                 out.append("  " + text)
                 expect.append(("full", text))
         if i < len(lines):
+            if skip_next:
+                skip_next = False
+                continue
             l = lines[i]
             done = False
             for kind, at, text in coms:
@@ -98,7 +104,17 @@ def com_prog(ctx):
                     if not done:
                         ctx.check(True, "not applicable")
                         return
+            for kind, at, text in coms:
+                if kind == "semi" and at == i and not done and i + 1 < len(lines) and not skip_next:
+                    # two statements joined by ';' with a trailing comment: the comment follows both
+                    out.append(l + " ; " + lines[i + 1].strip() + " " + text)
+                    expect.append(("trail", text))
+                    done = True
+                    joined = True
             if done:
+                if joined:
+                    skip_next = True
+                    joined = False
                 continue
             for kind, at, text in coms:
                 if kind == "trail" and at == i:
